@@ -1519,6 +1519,21 @@ fn gen_ring_case(r: &mut Rng, big: bool) -> Option<(IG, Lat, &'static str)> {
 }
 
 pub fn gen_case(r: &mut Rng, big: bool) -> Option<(IG, Lat, &'static str)> {
+    // rings of realistic length (a count just beyond a power of two, or 130-700 coordinates), as shell, as hole of a
+    // big rectangle, or as member of a MultiPolygon after two short members
+    if r.chance(1, 400) {
+        let n = crate::gen::long_count(r);
+        let ring = crate::gen::long_ring(r, n);
+        let (x0, x1) = (ring.iter().map(|p| p.0).min().unwrap(), ring.iter().map(|p| p.0).max().unwrap());
+        let (y0, y1) = (ring.iter().map(|p| p.1).min().unwrap(), ring.iter().map(|p| p.1).max().unwrap());
+        let frame = vec![(x0 - 3, y0 - 3), (x1 + 3, y0 - 3), (x1 + 3, y1 + 3), (x0 - 3, y1 + 3), (x0 - 3, y0 - 3)];
+        let g = match r.below(3) {
+            0 => IG::Polygon(vec![ring]),
+            1 => IG::Polygon(vec![frame, ring]),
+            _ => IG::MultiPolygon(vec![vec![vec![(x1 + 10, 0), (x1 + 12, 0), (x1 + 12, 2), (x1 + 10, 0)]], vec![vec![(x1 + 20, 0), (x1 + 22, 0), (x1 + 22, 2), (x1 + 20, 2), (x1 + 20, 0)]], vec![ring]]),
+        };
+        return Some((g, pick_lat(r), "poly.long-ring"));
+    }
     let g = *r.pick(&[3i64, 4, 6, 8, 16, 64, 256]);
     let pt = |r: &mut Rng| (r.range(0, g), r.range(0, g));
     Some(match r.below(100) {
